@@ -23,11 +23,11 @@ def identical(dt=DataType.A_UINT32):
                                 compu_phys_to_internal=None, internal_type=dt, physical_type=dt)
 
 
-def dop(name="dop", bits=8, dt=DataType.A_UINT32, compu_method=None, dct=None, phys_dt=None):
+def dop(name="dop", bits=8, dt=DataType.A_UINT32, compu_method=None, dct=None, phys_dt=None, precision=None):
     return DataObjectProperty(odx_id=OdxLinkId(f"id.{name}", FRAGS), oid=None, short_name=name, long_name=None,
                               description=None, admin_data=None, diag_coded_type=dct or std_type(bits, dt),
                               physical_type=PhysicalType(base_data_type=phys_dt or dt, display_radix=None,
-                                                         precision=None),
+                                                         precision=precision),
                               compu_method=compu_method or identical(dt), unit_ref=None, sdgs=[],
                               internal_constr=None, physical_constr=None)
 
@@ -215,25 +215,35 @@ from odxtools.multiplexercase import MultiplexerCase  # noqa: E402
 from odxtools.multiplexerswitchkey import MultiplexerSwitchKey  # noqa: E402
 
 
-def mux(name, key_dop, cases, byte_position=1, key_byte_position=0):
-    """cases: list of (case name, lower, upper, structure or None)"""
+def mux(name, key_dop, cases, byte_position=1, key_byte_position=0, default=None):
+    """cases: list of (case name, lower, upper, structure or None[, lower interval type, upper interval type]);
+    default: (name, structure or None) of the default case"""
     sk = MultiplexerSwitchKey(byte_position=key_byte_position, bit_position=None,
                               dop_ref=OdxLinkRef.from_id(key_dop.odx_id))
     sk._dop = key_dop
     mcs = []
-    for (cname, lo, hi, st) in cases:
+    for case in cases:
+        (cname, lo, hi, st) = case[:4]
+        lo_kind, hi_kind = (case[4], case[5]) if len(case) > 4 else ("CLOSED", "CLOSED")
         c = MultiplexerCase(short_name=cname, long_name=None, description=None,
                             structure_ref=None if st is None else OdxLinkRef.from_id(st.odx_id),
                             structure_snref=None,
                             lower_limit=Limit(value_raw=str(lo), value_type=DataType.A_UINT32,
-                                              interval_type=IntervalType.CLOSED),
+                                              interval_type=IntervalType[lo_kind]),
                             upper_limit=Limit(value_raw=str(hi), value_type=DataType.A_UINT32,
-                                              interval_type=IntervalType.CLOSED))
+                                              interval_type=IntervalType[hi_kind]))
         c._structure = st
         mcs.append(c)
+    dc = None
+    if default is not None:
+        from odxtools.multiplexerdefaultcase import MultiplexerDefaultCase
+        dc = MultiplexerDefaultCase(short_name=default[0], long_name=None, description=None,
+                                    structure_ref=None if default[1] is None else OdxLinkRef.from_id(default[1].odx_id),
+                                    structure_snref=None)
+        dc._structure = default[1]
     return Multiplexer(odx_id=OdxLinkId(f"id.{name}", FRAGS), oid=None, short_name=name, long_name=None,
                        description=None, admin_data=None, sdgs=[], byte_position=byte_position, switch_key=sk,
-                       default_case=None, cases=NamedItemList(mcs), is_visible_raw=None)
+                       default_case=dc, cases=NamedItemList(mcs), is_visible_raw=None)
 
 
 from odxtools.parameters.tablekeyparameter import TableKeyParameter  # noqa: E402
